@@ -2,6 +2,7 @@ SPECIFICATION Spec
 CONSTANTS
   Behaviors = {"A", "B"}
   MaxOps = 2
+  MaxRestarts = 0
   Defects = {"UnBecomePushes"}
   MaxDepth = 4
 CONSTRAINT Bound
